@@ -127,7 +127,7 @@ def compare_oracle(res, rtol=1e-8):
 
 
 # ------------------------------------------------------------------------------------------------ parameter statistics
-def make_param_image(work, rng, nb, model, thresh, layout, shape=None):
+def make_param_image(work, rng, nb, model, thresh, layout, shape=None, same_names=False):
     """Synthetic parameter image (3 * nb bands, float32, NaN nodata) with the tags and descriptions stats() requires."""
     H, W = shape or (rng.randint(20, 48), rng.randint(20, 48))
     arr = np.zeros((3 * nb, H, W), 'float32')
@@ -166,7 +166,8 @@ def make_param_image(work, rng, nb, model, thresh, layout, shape=None):
         ds.write(arr)
         ds.update_tags(**tags)
         for i, nm in enumerate(names):
-            ds.set_band_description(i + 1, f'B{i % nb + 1}_{nm}')
+            # (same_names: what fuse writes when the matched reference bands share a description, e.g. a panchromatic reference used for every band)
+            ds.set_band_description(i + 1, f'PAN_{nm}' if same_names else f'B{i % nb + 1}_{nm}')
     return fn
 
 
@@ -204,6 +205,8 @@ def encode_param(res):
 
 def param_oracle(res, rtol=1e-9):
     go, th, count = res['model'] == 'gain-offset', res['thresh'], res['count']
+    if len(res['obs']) != len(res['tiles']):
+        return f'{len(res["obs"])} bands reported for a parameter image of {len(res["tiles"])} bands'
     for bi, (bl, st) in enumerate(zip(res['tiles'], res['obs'])):
         vals = [F(v) for t in bl for v in t]
         if not vals:
